@@ -418,8 +418,10 @@ def process_candidates(prop, engine, sim, cands, outdir, seed, tier, max_new=4,
                              (cls, sig, ok1, r1.get('hash'), ok2, r2.get('hash'),
                               json.dumps(plan)[:2000])))
             continue
+        # A hang costs its full time limit per execution: gated, not minimised.
         small, used = minimise(sim, engine, plan, prop, cls, sig, outdir,
-                               entry_name=c.get('entry'))
+                               entry_name=c.get('entry'),
+                               budget=0 if cls == 'hang' else 400)
         # Final execution of the minimised plan, to freeze its bytes.
         rf = exec_plans(sim, engine, [small], outdir, 'final')[0]
         if not has_violation(rf, prop, cls, sig):
